@@ -83,6 +83,14 @@ var nilV = V{T: "nil"}
 func intV(n int64) V  { return V{T: "int", I: n} }
 func strV(s string) V { return V{T: "str", S: s} }
 
+// byteTok names one byte of a string as the specification does: itself when ASCII, "xHH" otherwise
+func byteTok(b byte) string {
+	if b < 0x80 {
+		return string(rune(b))
+	}
+	return fmt.Sprintf("x%02x", b)
+}
+
 func lit(v V) string {
 	switch v.T {
 	case "int":
@@ -145,11 +153,17 @@ func src(o Op) string {
 	case "tmapnew":
 		return o.X + " = make(map[string]int64)"
 	case "strlit":
-		t := ""
+		t := []byte{}
 		for _, c := range o.Cs {
-			t += c
+			if len(c) == 3 && c[0] == 'x' {
+				if b, err := strconv.ParseUint(c[1:], 16, 8); err == nil { // "xHH": the byte HH of a multi-byte character
+					t = append(t, byte(b))
+					continue
+				}
+			}
+			t = append(t, c...)
 		}
-		return o.X + " = " + strconv.Quote(t)
+		return o.X + " = \"" + string(t) + "\""
 	case "mapdel":
 		return "delete(" + o.X + ", " + lit(o.I) + ")"
 	case "structnew":
@@ -195,6 +209,9 @@ func proj(x interface{}) V {
 	case reflect.Int64, reflect.Int:
 		return intV(rv.Int())
 	case reflect.String:
+		if r := []rune(rv.String()); len(r) == 1 && r[0] >= 0x80 && r[0] <= 0xff {
+			return strV(byteTok(byte(r[0]))) // the element s[i] of a string is handed out as string(rune(byte))
+		}
 		return strV(rv.String())
 	case reflect.Bool:
 		if rv.Bool() {
@@ -301,7 +318,7 @@ func (w *world) observe(l *Line) {
 				str := rv.String()
 				p.Len = len(str)
 				for i := 0; i < len(str); i++ {
-					p.Elems = append(p.Elems, strV(str[i:i+1]))
+					p.Elems = append(p.Elems, strV(byteTok(str[i])))
 				}
 			case reflect.Interface, reflect.Ptr:
 				p.T = "nil"
@@ -403,7 +420,7 @@ func opPool(rng *rand.Rand, w *world) Op {
 	y = have[rng.Intn(len(have))]
 	isStr := func(n string) bool { rv := w.get(n); return rv.IsValid() && rv.Kind() == reflect.String }
 	if rng.Intn(5) == 0 { // strings and typed maps
-		lits := [][]string{{"a", "b", "c"}, {}, {"x"}, {"a", "b"}}
+		lits := [][]string{{"a", "b", "c"}, {}, {"x"}, {"a", "b"}, {"a", "xc3", "xa9"}, {"xc3", "xa9", "z"}}
 		if !isStr("s") || rng.Intn(12) == 0 {
 			return Op{Op: "strlit", X: "s", Cs: lits[rng.Intn(len(lits))]}
 		}
